@@ -56,6 +56,12 @@ static std::string op_mix(const Toks &t) {
     char buf[32];
     for (int i = 0; i < k; ++i) { snprintf(buf, sizeof(buf), "%016llx", (unsigned long long)ascon_trng_generate_64(&st)); w1 += buf; }
     for (int i = 0; i < 3; ++i) { snprintf(buf, sizeof(buf), "%08x", (unsigned)ascon_trng_generate_32(&st)); w1 += buf; }
+    // a 64-bit draw right after an odd number of 32-bit draws must start a fresh block, not overlap what was handed out
+    uint32_t h32[3]; { const char *q = w1.c_str() + w1.size() - 24; for (int i = 0; i < 3; ++i) { char tmp[9]; memcpy(tmp, q + 8 * i, 8); tmp[8] = 0; h32[i] = (uint32_t)strtoul(tmp, 0, 16); } }
+    uint64_t x64 = ascon_trng_generate_64(&st);
+    bool overlap = false;
+    for (int i = 0; i < 3; ++i) if ((uint32_t)x64 == h32[i] || (uint32_t)(x64 >> 32) == h32[i]) overlap = true;
+    w1 += overlap ? "OVERLAP" : "";
     int ok2 = ascon_trng_reseed(&st);
     for (int i = 0; i < k; ++i) { snprintf(buf, sizeof(buf), "%016llx", (unsigned long long)ascon_trng_generate_64(&st)); w2 += buf; }
     ascon_trng_free(&st);
